@@ -277,7 +277,15 @@ Error CodeHolder::reinit() noexcept {
   CodeHolder_reset_sections_and_containers(this, ResetPolicy::kSoft);
 
   // Create a default section and insert it to the `_sections` array.
-  (void)CodeHolder_init_section_storage(this);
+  if (ASMJIT_UNLIKELY(CodeHolder_init_section_storage(this) != Error::kOk)) {
+    // Without the section storage the holder cannot be used - leave it uninitialized (as after a failed `init()`).
+    CodeHolder_detach_emitters(this);
+    CodeHolder_reset_env_and_attached_logger_and_eh(this);
+    _sections.reset();
+    _sections_by_order.reset();
+    _arena.reset();
+    return make_error(Error::kOutOfMemory);
+  }
   CodeHolder_add_text_section(this);
 
   BaseEmitter* emitter = _attached_first;
